@@ -741,9 +741,11 @@ func (ar *asyncRunner) start(nArgs int) {
 	ar.promiseCap = r.newPromiseCapability(r.getPromise())
 	sp := r.vm.sp
 	ar.gen.enter()
-	defer ar.gen.unwindOnPanic()
+	aborted := true
+	defer ar.gen.unwind(&aborted)
 	ar.vmCall(r.vm, nArgs)
 	res, resType, ex := ar.gen.step()
+	aborted = false
 	ar.step(res, resType == resultNormal, ex)
 	if ex != nil {
 		r.vm.sp = sp - nArgs - 2
@@ -762,6 +764,21 @@ type generator struct {
 
 func (g *generator) storeLengths() {
 	g.tryStackLen, g.iterStackLen, g.refStackLen = uint32(len(g.vm.tryStack)), uint32(len(g.vm.iterStack)), uint32(len(g.vm.refStack))
+}
+
+// unwind is deferred by the callers of enter() and enterNext(). If *aborted is still set when it runs, a Go panic
+// that is not a catchable exception (an interrupt, a stack overflow, a foreign panic) is propagating through the
+// generator: the marker try frame pushed by enter()/enterNext() (and anything left above it) is removed, so that
+// the try frame of the enclosing Go boundary is found and restores the state of the caller. Without this every
+// such frame stayed on the try stack, the enclosing boundaries unwound to the wrong frame and the call stack,
+// the iterator stack and the interrupt flag leaked into the next run.
+func (g *generator) unwind(aborted *bool) {
+	if *aborted {
+		vm := g.vm
+		if l := int(g.tryStackLen) - 1; l >= 0 && l < len(vm.tryStack) {
+			vm.tryStack = vm.tryStack[:l]
+		}
+	}
 }
 
 func (g *generator) enter() {
@@ -888,12 +905,6 @@ yielded:
 	return
 }
 
-// stepUnwind is step() for the callers that pop the frames themselves afterwards.
-func (g *generator) stepUnwind() (Value, resultType, *Exception) {
-	defer g.unwindOnPanic()
-	return g.step()
-}
-
 func (g *generator) enterNext() {
 	g.vm.pushCtx()
 	g.vm.pushTryFrame(tryPanicMarker, -1)
@@ -902,25 +913,15 @@ func (g *generator) enterNext() {
 	g.vm.resume(&g.ctx)
 }
 
-// unwindOnPanic must be deferred right after enter()/enterNext(). If an uncatchable panic (interrupt,
-// stack overflow) propagates out of the generator body the try frame and the context pushed by
-// enter()/enterNext() still have to be removed, otherwise the callers find this frame instead of
-// their own and the runtime is never returned to its idle state.
-func (g *generator) unwindOnPanic() {
-	if x := recover(); x != nil {
-		g.vm.popTryFrame()
-		g.vm.popCtx()
-		panic(x)
-	}
-}
-
 func (g *generator) next(v Value) (Value, resultType, *Exception) {
 	g.enterNext()
-	defer g.unwindOnPanic()
+	aborted := true
+	defer g.unwind(&aborted)
 	if v != nil {
 		g.vm.push(v)
 	}
 	res, done, ex := g.step()
+	aborted = false
 	g.vm.popTryFrame()
 	g.vm.popCtx()
 	return res, done, ex
@@ -928,19 +929,22 @@ func (g *generator) next(v Value) (Value, resultType, *Exception) {
 
 func (g *generator) nextThrow(v interface{}) (Value, resultType, *Exception) {
 	g.enterNext()
-	defer g.unwindOnPanic()
+	aborted := true
+	defer g.unwind(&aborted)
 	ex := g.vm.handleThrow(v)
 	if ex != nil && g.returning != nil {
 		// suspended inside a finally block that was entered by return()
 		ex = g.throwIntoBody(ex)
 	}
 	if ex != nil {
+		aborted = false
 		g.vm.popTryFrame()
 		g.vm.popCtx()
 		return nil, resultNormal, ex
 	}
 
 	res, resType, ex := g.step()
+	aborted = false
 	g.vm.popTryFrame()
 	g.vm.popCtx()
 	return res, resType, ex
@@ -952,9 +956,12 @@ func (g *generatorObject) init(vmCall func(*vm, int), nArgs int) {
 	g.gen.vm = vm
 
 	g.gen.enter()
+	aborted := true
+	defer g.gen.unwind(&aborted)
 	vmCall(vm, nArgs)
 
-	_, _, ex := g.gen.stepUnwind()
+	_, _, ex := g.gen.step()
+	aborted = false
 
 	vm.popTryFrame()
 	if ex != nil {
@@ -1118,11 +1125,14 @@ func (g *generatorObject) _return(v Value) Value {
 	g.gen.returning = v
 	g.state = genStateExecuting
 	g.gen.enterNext()
+	aborted := true
+	defer g.gen.unwind(&aborted)
 	canContinue := g.gen.enterNextFinallyFrame()
 	if !canContinue {
 		vm := g.gen.vm
 		g.state = genStateCompleted
 
+		aborted = false
 		vm.popTryFrame()
 
 		ex := vm.restoreStacks(g.gen.iterStackLen, g.gen.refStackLen)
@@ -1137,7 +1147,8 @@ func (g *generatorObject) _return(v Value) Value {
 
 		return g.val.runtime.createIterResultObject(v, true)
 	}
-	res, done, ex := g.gen.stepUnwind()
+	res, done, ex := g.gen.step()
+	aborted = false
 	vm := g.gen.vm
 	vm.popTryFrame()
 	vm.popCtx()
